@@ -253,6 +253,7 @@ type bStore struct {
 	order.Store
 	orders map[order.Nonce]order.Order
 	visits []string
+	failed bool // a GetOrder call returned an error since the last reset
 	real   *clientdb.DB
 	realDir string
 }
@@ -260,10 +261,15 @@ type bStore struct {
 func (s *bStore) GetOrder(n order.Nonce) (order.Order, error) {
 	s.visits = append(s.visits, hex.EncodeToString(n[:]))
 	if s.real != nil {
-		return s.real.GetOrder(n)
+		o, err := s.real.GetOrder(n)
+		if err != nil {
+			s.failed = true
+		}
+		return o, err
 	}
 	o, ok := s.orders[n]
 	if !ok {
+		s.failed = true
 		return nil, fmt.Errorf("order not found")
 	}
 	return o, nil
@@ -271,7 +277,8 @@ func (s *bStore) GetOrder(n order.Nonce) (order.Order, error) {
 
 type bAcctStore struct {
 	account.Store
-	accts map[[33]byte]*account.Account
+	accts  map[[33]byte]*account.Account
+	failed bool
 }
 
 func (s *bAcctStore) Account(k *btcec.PublicKey) (*account.Account, error) {
@@ -279,6 +286,7 @@ func (s *bAcctStore) Account(k *btcec.PublicKey) (*account.Account, error) {
 	copy(raw[:], k.SerializeCompressed())
 	a, ok := s.accts[raw]
 	if !ok {
+		s.failed = true
 		return nil, fmt.Errorf("account not found")
 	}
 	// like the real database: every read returns a fresh object
@@ -288,10 +296,12 @@ func (s *bAcctStore) Account(k *btcec.PublicKey) (*account.Account, error) {
 
 type bWallet struct {
 	lndclient.WalletKitClient
+	failed bool
 }
 
 func (w *bWallet) DeriveKey(_ context.Context, in *keychain.KeyLocator) (*keychain.KeyDescriptor, error) {
 	if in.Index == 0xffff {
+		w.failed = true
 		return nil, fmt.Errorf("wallet locked")
 	}
 	return &keychain.KeyDescriptor{KeyLocator: *in, PubKey: bKey(int(in.Index))}, nil
@@ -309,6 +319,7 @@ type bSession struct {
 	mgr     bMgr
 	store   *bStore
 	accts   *bAcctStore
+	wallet  *bWallet
 	version uint32
 }
 
@@ -316,6 +327,7 @@ func newBSession(version uint32) *bSession {
 	s := &bSession{
 		store:   &bStore{orders: map[order.Nonce]order.Order{}},
 		accts:   &bAcctStore{accts: map[[33]byte]*account.Account{}},
+		wallet:  &bWallet{},
 		version: version,
 	}
 	ln := test.NewMockLightning()
@@ -324,7 +336,7 @@ func newBSession(version uint32) *bSession {
 		Store:        s.store,
 		AcctStore:    s.accts,
 		Lightning:    ln,
-		Wallet:       &bWallet{},
+		Wallet:       s.wallet,
 		Signer:       test.NewMockSigner(),
 		BatchVersion: order.BatchVersion(version),
 	})
@@ -829,6 +841,32 @@ func (c *bCase) fillOracle() {
 
 // ---------------------------------------------------------------- error classes
 
+// bKind classifies the outcome WITHOUT looking at error texts: by sentinel errors / error types and by which
+// of the harness's proxies (order store, account store, wallet) returned an error during the call.
+func bKind(err error, s *bSession) string {
+	if err == nil {
+		return "ok"
+	}
+	var vm *order.ErrVersionMismatch
+	switch {
+	case errors.Is(err, order.ErrInvalidBatchHeightHint):
+		return "height"
+	case errors.As(err, &vm):
+		return "version"
+	case s.store.failed:
+		return "order-not-found"
+	case s.accts.failed:
+		return "acct-not-found"
+	case s.wallet.failed:
+		return "chan-derive"
+	case errors.Is(err, order.ErrMismatchErr):
+		return "mismatch"
+	}
+	return "other"
+}
+
+// bClassify: a finer, TEXT based label – used for the histogram of the evidence only (never compared, no
+// floors depend on it).
 func bClassify(err error) string {
 	if err == nil {
 		return "ok"
@@ -916,6 +954,7 @@ func bClassify(err error) string {
 type bResult struct {
 	class   string
 	pending string
+	text    string // informational text label
 	before  string // pending batch id before the call
 	batch   *order.Batch
 }
@@ -946,8 +985,10 @@ func (c *bCase) run(r *Run, s *bSession) bResult {
 		}
 		res.batch = batch
 		c.MarketOrder = c.observedMarketOrder(batch)
+		s.store.failed, s.accts.failed, s.wallet.failed = false, false, false
 		err = s.mgr.OrderMatchValidate(batch, c.Best)
-		res.class = bClassify(err)
+		res.class = bKind(err, s)
+		res.text = bClassify(err)
 	}()
 	res.pending = "-"
 	if s.mgr.HasPendingBatch() {
@@ -983,6 +1024,9 @@ func (c *bCase) run(r *Run, s *bSession) bResult {
 	s.store.closeReal()
 	r.Evaluations++
 	r.Count("class/" + res.class)
+	if res.text != "" && res.text != "ok" {
+		r.Count("textclass/" + strings.SplitN(res.text, ":", 2)[0])
+	}
 	return res
 }
 
@@ -1516,7 +1560,7 @@ func runBatch(r *Run) {
 			r.Violate("OrderMatchValidate panicked", r.Prop+"/panic", replayOf(c))
 			return
 		}
-		if strings.HasPrefix(res.class, "unclassified") {
+		if strings.HasPrefix(res.text, "unclassified") {
 			r.Notes = append(r.Notes, res.class)
 		}
 		// pending batch must be set iff accepted
